@@ -427,6 +427,18 @@ func c17(r *ev.Run) {
 			}
 		}
 	}
+	// HexInputToOCRA: every field at every even text length 0..300 (and a few odd ones): the helper converts, it
+	// does not judge lengths (admission is OCRAInput.Validate's business, C14)
+	for f := 0; f < 5; f++ {
+		for n := 0; n <= 300; n++ {
+			if n%2 == 1 && n%31 != 0 {
+				continue
+			}
+			args := []string{"0000000000000001", "3132333435363738", "7110eda4d09e062aa5e4a390b0a572ac0d2c0220", "abcdef", "000000000132d0b6"}
+			args[f] = strings.Repeat("0123456789abcdefABCDEF", 14)[:n]
+			cases = append(cases, c17Case{Helper: "HexInputToOCRA", Args: args})
+		}
+	}
 	// HexInputToOCRA: all 3^5 combinations of {valid, invalid, empty} x two contents
 	valid := [][]string{{"0000000000000001", "FFfFffFFFFffFFFF"}, {"3132333435363738", "a98ac7"}, {"7110eda4d09e062aa5e4a390b0a572ac0d2c0220", "00"}, {"abcdef", "00112233445566778899"}, {"000000000132d0b6", "ff"}}
 	invalid := []string{"0", "zz", "abc", "0x12", "12 "}
